@@ -442,6 +442,45 @@ pub fn vec_get<T>(v: &Vec<T>, i: usize) -> (r: Option<&T>)
     if i < v.len() { Some(&v[i]) } else { None }
 }
 
+/// R12 helper: `v.into_iter().unzip()` into two vectors, written out for `Copy` pairs; the body is verified
+pub fn vec_unzip<A: Copy, B: Copy>(v: Vec<(A, B)>) -> (r: (Vec<A>, Vec<B>))
+    ensures r.0@.len() == v@.len(), r.1@.len() == v@.len(),
+            forall|i: int| #![trigger r.0@[i]] #![trigger r.1@[i]] #![trigger v@[i]] 0 <= i < v@.len() ==> r.0@[i] == v@[i].0 && r.1@[i] == v@[i].1,
+{
+    let mut a: Vec<A> = Vec::new();
+    let mut b: Vec<B> = Vec::new();
+    let mut i: usize = 0;
+    while i < v.len()
+        invariant i <= v@.len(), a@.len() == i, b@.len() == i,
+                  forall|k: int| 0 <= k < i ==> a@[k] == (#[trigger] v@[k]).0 && b@[k] == v@[k].1,
+        decreases v@.len() - i,
+    {
+        let t = v[i];
+        a.push(t.0);
+        b.push(t.1);
+        i += 1;
+    }
+    (a, b)
+}
+
+/// R12 helper: `v.iter().max()` on `usize` elements, written out; the body is verified
+pub fn vec_max(v: &Vec<usize>) -> (r: Option<&usize>)
+    ensures r is Some <==> v@.len() > 0,
+            r is Some ==> (forall|i: int| 0 <= i < v@.len() ==> v@[i] <= *r->0) && (exists|i: int| 0 <= i < v@.len() && v@[i] == *r->0),
+{
+    if v.len() == 0 { return None; }
+    let mut m: usize = 0;
+    let mut i: usize = 1;
+    while i < v.len()
+        invariant 1 <= i <= v@.len(), m < i, forall|k: int| 0 <= k < i ==> v@[k] <= v@[m as int],
+        decreases v@.len() - i,
+    {
+        if v[i] >= v[m] { m = i; }
+        i += 1;
+    }
+    Some(&v[m])
+}
+
 /// R12 helper: `x.into()` where the target is `Option<X>` (std: `impl<T> From<T> for Option<T>`)
 pub trait IntoSome: Sized { fn into_some(self) -> (r: Option<Self>) ensures r == Some(self); }
 impl IntoSome for TokenStream { fn into_some(self) -> (r: Option<Self>) { Some(self) } }
